@@ -443,6 +443,20 @@ func runC02(r *core.Run, tier string) {
 			variants = append(variants, &c02Variant{base: -1, mask: 1, src: "package main\n\nimport frt\n\n" + types + pb.body, name: pb.name, want: normSig(pb.want)})
 			r.Count("hand_written_signature_probes", 1)
 		}
+		// literals of generic records with two and three type parameters: every parameter is its own
+		// variable (the generated functions only know one-parameter generics)
+		types = "type GP2<T, U> = {P2x: T; P2y: U}\n\ntype GP3<T, U, V> = {P3x: T; P3y: U; P3z: V}\n\n"
+		for _, pb := range []struct{ name, body, want string }{
+			{"mkP2", "let mkP2 a b =\n  {P2x=a; P2y=b}\n", "func mkP2[T0 any, T1 any](a T0, b T1) GP2[T0, T1]"},
+			{"labelP2", "let labelP2 (n:int) (s:string) =\n  {P2x=n + 1; P2y=s + \"!\"}\n", "func labelP2(n int, s string) GP2[int, string]"},
+			{"swapP2", "let swapP2 a b =\n  ({P2x=a; P2y=b}, {P2x=b; P2y=a})\n", "func swapP2[T0 any, T1 any](a T0, b T1) frt.Tuple2[GP2[T0, T1], GP2[T1, T0]]"},
+			{"halfP2", "let halfP2 a (n:int) =\n  {P2y=n * 2; P2x=a}\n", "func halfP2[T0 any](a T0, n int) GP2[T0, int]"},
+			{"mkP3", "let mkP3 a b c =\n  {P3x=a; P3y=b; P3z=c}\n", "func mkP3[T0 any, T1 any, T2 any](a T0, b T1, c T2) GP3[T0, T1, T2]"},
+			{"mixP3", "let mixP3 a (s:string) b =\n  {P3x=[a]; P3y=s; P3z=(b, a)}\n", "func mixP3[T0 any, T1 any](a T0, s string, b T1) GP3[[]T0, string, frt.Tuple2[T1, T0]]"},
+		} {
+			variants = append(variants, &c02Variant{base: -1, mask: 1, src: "package main\n\nimport frt\n\n" + types + pb.body, name: pb.name, want: normSig(pb.want)})
+			r.Count("hand_written_signature_probes", 1)
+		}
 	}
 	// transpile every variant alone
 	base := env.Dir("c02")
